@@ -538,19 +538,7 @@ def desc_fields(repo, res):
             want = [f"tabulate_tensor_{t}" for t in ("float32", "float64", "complex64", "complex128")]
             if sorted(slots) != sorted(want):
                 res.fail(key, f"ufcx_integral template has kernel slots {slots}, expected {want}", ct.rel, props=props)
-            # generator: all four NULL by default, the scalar type's one set to the kernel
-            src = ast.unparse(cg.node)
-            for t in ("float32", "float64", "complex64", "complex128"):
-                kk = f"C.integral:kernel-slot:{t}"
-                res.ob(kk)
-                if f"'.tabulate_tensor_{t} = NULL,'" not in src:
-                    res.fail(kk, f"kernel slot tabulate_tensor_{t} is not NULL by default", cg.module.line(cg.node), props=props)
-            kk = "C.integral:kernel-slot:selected"
-            res.ob(kk)
-            if not re.search(r"code\[f'tabulate_tensor_\{np_scalar_type\}'\] = f'\.tabulate_tensor_\{np_scalar_type\} = tabulate_tensor_\{factory_name\},'", src):
-                res.fail(kk, "the kernel is not stored in the field named after the scalar type", cg.module.line(cg.node), props=props)
-            if "np_scalar_type = np.dtype(options['scalar_type']).name" not in src:
-                res.fail(kk, "np_scalar_type is not derived from options['scalar_type']", cg.module.line(cg.node), props=props)
+            # which slot the generator fills for which scalar type: rule GEN-INTEGRAL (generator interpreted)
         # --- numba class vs struct
         attrs = _py_class_attrs(_template(nt))
         attr_names = [a for a, _ in attrs]
@@ -871,7 +859,7 @@ def expr_coef_pos(repo, res):
                      f"original_coefficient_positions are {got}, expected {want}{why}: a caller packing w by these positions hands the kernel the wrong functions",
                      rep.line(g.node))
         res.notes.append("original_coefficient_positions decided by interpreting its backward slice on sample coefficient lists")
-        _constant_names_vs_offsets(res, rep, g, cfg, component)
+        _constant_names_vs_offsets(res, rep, g, cfg, component, repo)
         key = f"{g.key}:numbering-same-list"
         res.ob(key)
         num = _positions_by_slice(repo, g, "coefficient_numbering")
@@ -880,17 +868,11 @@ def expr_coef_pos(repo, res):
         gotn = num[0]
         if not isinstance(gotn, dict) or sorted((k.f.get("name"), v) for k, v in gotn.items()) != [("B", 0), ("C", 1)]:
             res.fail(key, f"coefficient_numbering of the processed coefficients [B, C] is {gotn}, expected B->0, C->1 (the order positions are listed in)", rep.line(g.node))
-        key = f"{g.key}:stored"
-        res.ob(key)
-        if not re.search(r"\['original_coefficient_positions'\] = original_coefficient_positions\b", ast.unparse(g.node)):
-            res.fail(key, "the computed positions are not what is stored in the IR", rep.line(g.node))
+        # (what is interpreted is the value stored under the IR key, so `stored in the IR` is part of the verdict above)
         # offsets of the coefficients inside w: exclusive prefix sum over the PROCESSED coefficients (what the caller packs)
         key = f"{g.key}:coefficient-offsets"
         res.ob(key)
-        mo = re.search(r"base_ir\['coefficient_offsets'\] = (\w+)\b", ast.unparse(g.node))
-        if not mo:
-            raise AnalysisError("_compute_expression_ir: base_ir['coefficient_offsets'] store not found")
-        off = _positions_by_slice(repo, g, mo.group(1))
+        off = _positions_by_slice(repo, g, "coefficient_offsets")
         if off is None:
             raise AnalysisError("_compute_expression_ir: coefficient offsets slice not interpretable")
         goto = off[0]
@@ -945,7 +927,7 @@ def expr_coef_pos(repo, res):
     num = re.search(r"for (\w+), (\w+) in enumerate\((\w+)\):\n\s+coefficient_numbering\[\2\] = \1", ast.unparse(g.node))
     if not num or num.group(3) != iter_name:
         res.fail(key, "coefficient_numbering does not enumerate the list original_coefficient_positions is built for", rep.line(g.node))
-    _constant_names_vs_offsets(res, rep, g, cfg, component)
+    _constant_names_vs_offsets(res, rep, g, cfg, component, repo)
     key = f"{g.key}:stored"
     res.ob(key)
     if not re.search(r"\['original_coefficient_positions'\] = original_coefficient_positions\b", ast.unparse(g.node)):
@@ -1006,106 +988,53 @@ def form_kernel_align(repo, res):
                 res.fail(key, f"{be}: entries of {slot} do not use `{val_var}`", m.line(prev), props=("C06", "C18") if be == "C" else ("C18",))
 
 
-def _constant_names_vs_offsets(res, rep, g, cfg, component):
+def _constant_names_vs_offsets(res, rep, g, cfg, component, repo):
     # constants: names / count are listed for the same expression the kernel's constant offsets are computed from
+    # (both slices interpreted on a sample where preprocessing dropped the first constant)
+    from ..absint import Raised
+    from ..sliceint import value_of
+    from ._irsamples import IRSamples, named
+
     key = f"{g.key}:constant-names-vs-offsets"
     res.ob(key)
-    comps = {}
-    for n_ in ast.walk(g.node):
-        if isinstance(n_, ast.Call) and (call_name(n_) or "").endswith("extract_constants") and n_.args and isinstance(n_.args[0], ast.Name):
-            holder = None
-            for st in ast.walk(g.node):
-                if isinstance(st, (ast.Assign, ast.For)) and any(x is n_ for x in ast.walk(st)):
-                    if isinstance(st, ast.Assign) and isinstance(st.targets[0], ast.Subscript) and isinstance(st.targets[0].slice, ast.Constant):
-                        holder = ("names", st) if "constant_names" in str(st.targets[0].slice.value) else holder
-                    elif isinstance(st, ast.For) and any(isinstance(x, ast.Subscript) and "original_constant_offsets" in ast.unparse(x) for b in st.body for x in ast.walk(b)):
-                        holder = ("offsets", st)
-            if holder is None:
-                continue
-            nid = [nn.id for nn in cfg.stmt_nodes_containing(n_)]
-            if not nid:
-                continue
-            comps.setdefault(holder[0], set()).update(component(n_.args[0].id, nid[0]))
-    if "names" not in comps or "offsets" not in comps:
-        raise AnalysisError("_compute_expression_ir: constant names / constant offsets are not both built from extract_constants(<expression>)")
-    if comps["offsets"] != {2}:
-        res.fail(key, f"constant offsets are computed over tuple component {sorted(map(str, comps['offsets']))}, not the original expression", rep.line(g.node))
-    if comps["names"] != comps["offsets"]:
-        res.fail(key, f"constant names (and num_constants = their number) are listed for tuple component {sorted(map(str, comps['names']))} while the kernel's "
-                 f"offsets into c follow component {sorted(map(str, comps['offsets']))}: when preprocessing eliminates a constant (c2 * Dx(x[0]**2 + c1, 0)) the "
-                 "descriptor announces one constant and the kernel reads c[1]", rep.line(g.node))
+    S = IRSamples(repo)
+    it, env = S.expression(g, object_names={id(S.consts[1]): "kappa"})
+    try:
+        offs = value_of(it, g, env, key="original_constant_offsets")
+    except Raised as e:
+        offs = f"raises {e.what}"
+    it, env = S.expression(g, object_names={id(S.consts[1]): "kappa"})
+    try:
+        names = value_of(it, g, env, key="constant_names")
+    except Raised as e:
+        names = f"raises {e.what}"
+    if named(offs) != [("k0", 0), ("k1", 1), ("k2", 7)]:
+        res.fail(key, f"constant offsets of an expression whose original form has constants [k0 (), k1 (2,3), k2 (2,)] are {named(offs)}; they must be computed over "
+                 "the original expression", rep.line(g.node))
+    elif names != ["c0", "kappa", "c2"]:
+        res.fail(key, f"constant names (and num_constants = their number) are {names} while the kernel's offsets into c follow the original expression's constants "
+                 "[k0, k1 (named kappa), k2]: when preprocessing eliminates a constant (c2 * Dx(x[0]**2 + c1, 0)) the descriptor announces fewer constants than "
+                 "the kernel reads from c", rep.line(g.node))
 
 
 def _positions_by_slice(repo, g, target="original_coefficient_positions"):
-    """Interpret the statements of _compute_expression_ir that define original_coefficient_positions.
+    """Interpret the statements of _compute_expression_ir that define `target` (a local or an IR key) on the sample where
+    preprocessing keeps coefficients [B, C] of the original [A, B, C].
 
     Returns (got, want, explanation) or None when the slice cannot be interpreted."""
-    from ..absint import Interp, Node, Raised, _PyCall
-    from ..lnodes_model import load_classes
+    from ..absint import Raised
+    from ..sliceint import find_store, value_of
+    from ._irsamples import IRSamples
 
-    body = g.node.body
-
-    def mutated(st):
-        out = set()
-        for n in ast.walk(st):
-            if isinstance(n, (ast.Assign, ast.AnnAssign, ast.AugAssign)):
-                for t in ([n.target] if not isinstance(n, ast.Assign) else n.targets):
-                    for x in ast.walk(t):
-                        if isinstance(x, ast.Name) and isinstance(x.ctx, ast.Store):
-                            out.add(x.id)
-                        if isinstance(x, ast.Subscript) and isinstance(x.value, ast.Name):
-                            out.add(x.value.id)
-            if isinstance(n, ast.Call) and isinstance(n.func, ast.Attribute) and n.func.attr in ("append", "extend", "insert") and isinstance(n.func.value, ast.Name):
-                out.add(n.func.value.id)
-            if isinstance(n, ast.For):
-                for x in ast.walk(n.target):
-                    if isinstance(x, ast.Name):
-                        out.add(x.id)
-        return out
-
-    needed = {target}
-    chosen = []
-    for st in reversed(body):
-        m_ = mutated(st)
-        if m_ & needed and not (isinstance(st, ast.Assign) and isinstance(st.targets[0], ast.Subscript) and not isinstance(st.targets[0].value, ast.Name)):
-            chosen.append(st)
-            needed |= {x.id for x in ast.walk(st) if isinstance(x, ast.Name) and isinstance(x.ctx, ast.Load)}
-    chosen.reverse()
-    # statements that only store into ir dicts are not part of the slice
-    chosen = [st for st in chosen if not (isinstance(st, ast.Assign) and isinstance(st.targets[0], ast.Subscript)
-                                          and isinstance(st.targets[0].value, ast.Name) and st.targets[0].value.id in ("ir", "base_ir"))]
-    if not chosen:
-        return None
-    elA, elB, elC = Node("Element", name="elA", dim=6), Node("Element", name="elB", dim=3), Node("Element", name="elC", dim=4)
-    A = Node("Coefficient", name="A", ufl_element=_PyCall(lambda: elA))
-    B = Node("Coefficient", name="B", ufl_element=_PyCall(lambda: elB))
-    C = Node("Coefficient", name="C", ufl_element=_PyCall(lambda: elC))
-    processed, original = Node("UflExpr", name="processed"), Node("UflExpr", name="original")
-    it = Interp(repo, load_classes(repo), primary="ffcx.ir.representation")
-
-    def extract(x):
-        if x is processed or (isinstance(x, Node) and x.f.get("name") == "processed"):
-            return [B, C]
-        if isinstance(x, Node) and x.f.get("name") == "original":
-            return [A, B, C]
-        raise AnalysisError("extract_coefficients applied to something else than the processed / original expression")
-
-    it.overrides["ufl.algorithms.extract_coefficients"] = _PyCall(extract)
-    it.overrides["ufl.algorithms.analysis.extract_coefficients"] = _PyCall(extract)
-    it.overrides["extract_coefficients"] = _PyCall(extract)
-    env = {g.params[0]: (processed, Node("ndarray", shape=(1, 2), size=2), original), "ir": {}, "base_ir": {},
-           "analysis": Node("UFLData", unique_elements=[elA, elB, elC])}
-    it.ctx.append(g.module)
+    S = IRSamples(repo)
+    it, env = S.expression(g)
+    kw = {"key": target} if find_store(g.node, key=target) is not None else {"name": target}
     try:
-        try:
-            r = it.block(chosen, env)
-        except Raised as e:
-            return ([f"raises {e.what}"], [1, 2], "")
-        except AnalysisError:
-            return None
-    finally:
-        it.ctx.pop()
-    got = env.get(target)
+        got = value_of(it, g, env, **kw)
+    except Raised as e:
+        return ([f"raises {e.what}"], [1, 2], "")
+    except AnalysisError:
+        return None
     if not isinstance(got, (list, dict)):
         return None
     return (got, [1, 2], "")
